@@ -111,7 +111,23 @@ def run(ch, tier):
     res = Result()
     cfg = swarm(ch.s('cfg'), Cfg(), tier)
     cfg.max_states = min(cfg.max_states, 12)
+    if ch.s('cfg').flag(1, 3):
+        cfg.history = cfg.force_history = True
+        cfg.max_states = max(cfg.max_states, 8)
     sp = gen_spec(ch.s('chart'), cfg)
+    # legal references the generator never draws: a history state as the initial state of its parent, or as the memory of
+    # a sibling history state (validate() accepts both); moving / removing / renaming the referenced state has to follow
+    refs = ch.s('chart')
+    for n in sorted(sp.states):
+        s_ = sp.states[n]
+        hist = sorted(c for c in s_.children if sp.states[c].kind in ('shallow', 'deep'))
+        if s_.kind == 'compound' and hist and refs.flag(1, 3):
+            s_.initial = refs.pick(hist)
+            res.stats['initial_is_a_history_state'] += 1
+        if len(hist) >= 2 and refs.flag(1, 3):
+            a_, b_ = hist[0], hist[1]
+            sp.states[a_].memory = b_
+            res.stats['memory_is_a_history_state'] += 1
     sc = build_api(sp)
     m = Tree(sp)
     objs = list(sc.transitions)        # registered transition objects, model index aligned through identity lookups
